@@ -681,7 +681,7 @@ typename TangentBase<_Derived>::Tangent TangentBase<_Derived>::bracket(
   return internal::BracketEvaluator<
     typename internal::traits<_Derived>::Base,
     typename internal::traits<_DerivedOther>::Base
-  >(derived(), b.derived()).run();
+  >(derived(), static_cast<const _DerivedOther&>(b)).run();
 }
 
 template <typename _Derived>
